@@ -119,11 +119,19 @@ def check_roundtrip(case, ctx):
                         raise Violation("C07/constructed-with-parent/not-equal-to-parsed", "%s: node constructed with parent=<node> "
                                         "!= node parsed from its serialisation" % tag)
         # a stream whose current position is not 0 (header already consumed, nodes back to back)
-        stream = BytesIO(b"\xaa" * 5 + raw + raw[:40])
+        stream = BytesIO(b"\xaa" * 5 + raw + raw + raw[:40])
         stream.read(5)
         st_, n = call(cls.parse, stream, testnet)
         if st_ == "exc" or not (n == nodes[1][1]) or n.parsed_version != v:
             raise Violation("C07/parse/stream-offset", "%s: parsing from a stream positioned at offset 5 gave %r" % (tag, n))
+        # exactly one 78-byte record is consumed: the next key stored right behind it parses from the same stream
+        if stream.tell() != 5 + 78:
+            raise Violation("C07/parse/stream-position", "%s: after parsing one key from a stream the position is %d, expected %d"
+                            % (tag, stream.tell(), 5 + 78))
+        st_, n2 = call(cls.parse, stream, testnet)
+        if st_ == "exc" or not (n2 == nodes[1][1]) or n2.parsed_version != v or stream.tell() != 5 + 156:
+            raise Violation("C07/parse/stream-second-record", "%s: the second of two keys stored back to back parsed as %r (stream "
+                            "position %d)" % (tag, n2, stream.tell()))
         for (fa, a), (fb, b) in ((nodes[0], nodes[1]), (nodes[1], nodes[2]), (nodes[0], nodes[2])):
             if not (a == b):
                 raise Violation("C07/parse/forms-unequal", "%s: node from %s != node from %s" % (tag, fa, fb))
@@ -143,6 +151,16 @@ def check_roundtrip(case, ctx):
         want_default = b58.encode_check(ref.payload(R.VERSION_OF[(typ, testnet, 44)], private))
         if st_ == "exc" or sd != want_default:
             raise Violation("C07/serialise/default-version", "default serialisation %r, expected %s" % (sd, want_default))
+        # the caller's node object is only wrapped, never rewritten, when a wallet is built around it (flag defaulted)
+        mine = cls.parse(s, testnet)
+        before = (mine.extended_private_key() if private else mine.extended_public_key(), bool(mine.testnet))
+        st_, wrap = call(BaseWallet, master=mine)
+        if st_ == "ok":
+            call(wrap.p2wpkh_address, mine)
+            after = (mine.extended_private_key() if private else mine.extended_public_key(), bool(mine.testnet))
+            if after != before or not (mine == nodes[0][1]):
+                raise Violation("C07/wallet/callers-node-rewritten", "%s: after BaseWallet(master=node) the caller's node serialises "
+                                "by default as %r (testnet=%r), before as %r (testnet=%r)" % (tag, after[0], after[1], before[0], before[1]))
         # a wallet built from the string takes type/network from the prefix alone
         st_, w = call(BaseWallet.from_extended_key, s)
         if st_ == "exc":
